@@ -25,7 +25,7 @@ from __future__ import annotations
 
 import ast
 
-from .. import ctx
+from .. import ctx, paths
 from ..fnview import FnView
 from ..pattern import find, match
 from ..project import AnalysisError, call_name, kwarg, norm, walk_no_nested
@@ -64,6 +64,9 @@ def check(run, project):
     s3(run, roles, L)  # which session bit makes the first parameter opaque (decrypt for commands, encrypt for responses)
     helper_semantics(run, project, roles)
     w9(run, roles)
+    w11(run, roles)
+    from .shared import discarded_generators
+    discarded_generators(run, project, "W12")
     # W8: a decode starts from its own empty region list (a shared default would charge this decode with regions
     # another decode left open, and reject a well-formed encoding)
     from .c03 import r4
@@ -630,17 +633,16 @@ def framing(run, roles, L):
             procs = [e for e in tr.trace if e.kind == "process"]
             got = [p.data["field"] for p in procs]
             sessions = sem.get("sessions")
-            failed = sem.get("failed", False)
-            if w == "process_command":
-                key = (w, bool(sessions))
-            else:
-                key = (w, bool(sessions), bool(failed))
-            if sessions is None and not (w == "process_response" and failed):
-                # the tag was never consulted on this trace: both references must coincide
-                cands = [REF_FIELDS[k] for k in REF_FIELDS if k[0] == w and (w == "process_command" or k[2] == bool(failed))]
-                ref = cands[0] if all(c == cands[0] for c in cands) else None
-            else:
-                ref = REF_FIELDS[key]
+            failed = sem.get("failed") if w == "process_response" else False
+            key = (w, bool(sessions)) if w == "process_command" else (w, bool(sessions), bool(failed))
+            # a trace that never consulted the tag / the response code stands for inputs of both kinds: the layouts of all
+            # variants it covers must coincide (else the framing ignores a condition it has to depend on)
+            cands = [REF_FIELDS[k] for k in REF_FIELDS if k[0] == w and (sessions is None or k[1] == bool(sessions))
+                     and (w == "process_command" or failed is None or k[2] == bool(failed))]
+            ref = cands[0] if cands and all(c == cands[0] for c in cands) else None
+            if ref is None and cands:
+                # report against the variant the trace does NOT handle
+                ref = next((c for c in cands if c != got), cands[0])
             seen_variants.add(key)
             for u in unknown:
                 run.ob("F", False, f"{w} {vid}", f"framing depends on an extra condition `{u}` (which fields exist must be decided by "
@@ -857,6 +859,48 @@ def helper_semantics(run, project, roles):
                f"{got.attrs.get('_encrypted') if isinstance(got, NewType) else None}): the synthesis of the encrypted parameter layout changed",
                module=pc, node=e, func="TPMS_PARAMS.encrypted", construct="encrypted() synthesis")
     run.require(n >= 200, f"F: encrypted() folded over only {n} parameter areas")
+
+
+def w11(run, roles):
+    """the size-prefixed walker chooses the payload decode by (payload is a list, size is 0): a list payload is decoded
+    with count = the size value, a structured payload of size 0 is absent (its own `...` event, value None, nothing
+    decoded), any other structured payload is decoded as its declared type - as a decision table over the walker's
+    completing paths"""
+    from .outcomes import View, label
+    fn = roles.walkers.get("process_tpm2b")
+    if fn is None:
+        raise AnalysisError("size-prefixed walker not found")
+    mod, d = roles.mod, roles.dispatcher.name
+    ps = [p for p in paths.summarise(mod, fn) if p.end == "return" and not any(a.startswith("try@") for a, _v, _ in p.cond)]
+    atoms = {a for p in ps for a, _v, _ in p.cond}
+    Ls = sorted(a for a in atoms if a.startswith("is_list("))
+    Zs = sorted(a for a in atoms if a.endswith(" == 0"))
+    run.require(len(Ls) == 1 and len(Zs) == 1, f"W11: payload-kind tests of process_tpm2b not found ({Ls}, {Zs})")
+    Lx, Zx = Ls[0], Zs[0]
+    size_sym = Zx[:-len(" == 0")]
+    rows = [({Lx: True}, "list payload, count = size"), ({Lx: False, Zx: True}, "absent payload: its own event, value None"),
+            ({Lx: False, Zx: False}, "structured payload decoded as declared")]
+    n = 0
+    for p in ps:
+        procs = [e for k, e, _n in p.effects if k == "yieldfrom" and isinstance(e, ast.Call) and call_name(e) == d]
+        evs = [e for k, e, _n in p.effects if k == "yield" and isinstance(e, ast.Call) and call_name(e) == "MarshalEvent"]
+        nones = [paths.text(e) for k, e, _n in p.effects if k == "store" and paths.text(e).endswith("= None")]
+        if len(procs) == 2 and kwarg(procs[1], "count") is not None:
+            got = "list payload, count = size" if paths.text(kwarg(procs[1], "count")) == size_sym else \
+                f"list payload, count = {paths.text(kwarg(procs[1], 'count'))}"
+        elif len(procs) == 2:
+            got = "structured payload decoded as declared"
+        elif len(procs) == 1 and len(evs) == 2 and nones and len(evs[1].args) == 3 and paths.text(evs[1].args[2]) == "...":
+            got = "absent payload: its own event, value None"
+        else:
+            got = f"{len(procs)} decodes, {len(evs)} events"
+        want = paths.decide(rows, "?", View(p))
+        n += 1
+        run.ob("W11", want == {got}, f"process_tpm2b [{label(p)}]: {got}",
+               f"on the path [{label(p)}] the size-prefixed walker does `{got}`, required: {' or '.join(sorted(want))}: the payload of a "
+               "size-prefixed structure is decoded as the wrong kind (or not at all)", module=mod, node=p.node or fn, func=fn.name,
+               construct="process_tpm2b payload kind")
+    run.require(n >= 3, f"W11: only {n} completing paths of process_tpm2b")
 
 
 def w9(run, roles):
